@@ -2,10 +2,10 @@ SPECIFICATION Spec
 CONSTANTS
   Senders = {"o1", "a1", "b1"}
   EchoSenders = {"o1"}
-  MsgKeys = {"o1", "o2", "a1", "a2", "b1"}
+  MsgKeys = {"o1", "a1", "b1", "k"}
   MaxDec = 1
   ManualMax = 1
-  Combos <- CombosAll
+  Combos <- CombosQ4
   MaxHist = 4
 INVARIANTS TypeOK NoHeldFromAuthenticated HeldInScope OneDirectionPerSender ForeignPairsUntouched
 PROPERTIES StepOK
